@@ -213,6 +213,9 @@ func runHNSWHistory(r *rand.Rand, p hnswParams, o hnswOpts, t *Trace) *Case {
 						docids = append(docids, uint32(800+r.Intn(3)))
 					}
 				}
+				if len(resident) > 0 && r.Intn(3) == 0 {
+					docids = shapedDocIDs(r, resident[r.Intn(len(resident))].id)
+				}
 			}
 			n := len(resident)
 			ks := []int{-1, 0, 1, 2, 3, n, n + 1, 100}
